@@ -1,5 +1,5 @@
 /* vsched scenario: concurrent callers of the rank / stream-list API (C17, Model.RankConc).
- * usage: sc_ranks <seed> <mode> <log> <nbase> <nactors> <rounds> [ext%] [nranks]
+ * usage: sc_ranks <seed> <mode> <log> <nbase> <nactors> <rounds> [ext%] [nranks] [busy%]
  *
  * The primary ULT (actor 99) creates <nbase> execution streams that host ULT actors; then <nactors> actors
  * (external pthreads and ULTs on the different streams) concurrently call ABT_xstream_create_with_rank for the
@@ -19,6 +19,10 @@
  *    claimant that obtained r);
  *  - rank -1 yields the smallest unused rank whenever nobody else changed the list during the call;
  *  - get_num equals the length of the list at the moment of the (unlocked) read; 1 at the end;
+ *  - busy streams: some created streams get a ULT that keeps yielding for a while; their owner may call
+ *    ABT_xstream_free (without a join of its own) while the ULT still runs, so that the free blocks inside its join
+ *    while other actors create / set_rank / get_num.  A rank must never be granted while a stream on which such a
+ *    ULT is still pending or executing holds it, and get_num >= 1 + number of those streams;
  *  - an ABTI_ASSERT of the runtime that fails (e.g. `p_xstream->rank != rank` in xstream_add_xstream_list)
  *    is reported as a monitor failure with the text of the assertion. */
 #include "sc_common.h"
@@ -110,11 +114,15 @@ void __assert_fail(const char *assertion, const char *file, unsigned int line, c
 }
 
 /* ------------------------------------------------------------------ actors */
-typedef struct {
+typedef struct slot {
     ABT_xstream xs;
     int rank, live;
+    volatile int busy;  /* a ULT is pending or executing on the stream */
+    volatile int busy_left;
+    int inset;          /* the owner is inside set_rank on it (its rank is either the old or the new one) */
+    long busy_yields;
 } slot;
-static slot slots[128][NSLOT];
+static long n_busy, n_free_while_busy, n_claims_while_busy;
 static int claims_same[MAXR]; /* create_with_rank calls in flight per rank (evidence only) */
 
 static void *xptr(ABT_xstream x) { return (void *)ABTI_xstream_get_ptr(x); }
@@ -163,18 +171,57 @@ static void claim_done(int r)
         unjust[r] = 0;
     }
 }
-static void granted(int id, const char *what, int r)
+static slot slots[128][NSLOT];
+static int busy_streams(void)
+{
+    int n = 0;
+    for (int a = 0; a < MAX_ACTORS; a++)
+        for (int i = 0; i < NSLOT; i++)
+            n += slots[a][i].busy != 0;
+    return n;
+}
+
+static void granted(int id, const char *what, int r, slot *me)
 {
     n_granted++;
     if (r < 0 || r >= MAXR) {
         vs_fail("A%d: %s returned rank %d", id, what, r);
         return;
     }
+    for (int a = 0; a < MAX_ACTORS; a++)
+        for (int i = 0; i < NSLOT; i++) {
+            slot *o = &slots[a][i];
+            if (o != me && o->busy && !o->inset && o->rank == r)
+                vs_fail("A%d: %s was granted rank %d while the stream of A%d with rank %d is still executing a ULT "
+                        "(two running streams with the same rank)", id, what, r, a, r);
+        }
     if (firm[r] > 0)
         vs_fail("A%d: %s was granted rank %d while another live stream holds rank %d (ranks of live streams not distinct)", id,
                 what, r, r);
     firm[r]++;
     unjust[r] = 0;
+}
+
+static int busypct = 40;
+
+/* a ULT on a freshly created stream that keeps it executing for a while */
+static void busy_fn(void *arg)
+{
+    slot *s = (slot *)arg;
+    while (s->busy_left-- > 0) {
+        s->busy_yields++;
+        ABT_thread_yield();
+    }
+    s->busy = 0; /* from here on the stream has nothing left to execute */
+}
+static void make_busy(slot *s)
+{
+    ABT_pool pool;
+    ABT_OK(ABT_xstream_get_main_pools(s->xs, 1, &pool));
+    s->busy_left = 2 + sc_rnd(40);
+    s->busy = 1;
+    n_busy++;
+    ABT_OK(ABT_thread_create(pool, busy_fn, s, ABT_THREAD_ATTR_NULL, NULL));
 }
 
 /* kind: 0 ABT_xstream_create, 1 ABT_xstream_create_basic (both rank -1), 2 create_with_rank(r), 3 base stream */
@@ -185,6 +232,8 @@ static int do_create(int id, int kind, int r, slot *s, ABT_pool *base_pool)
     int ai0 = auto_inflight, others0 = creates_inflight++;
     long aa0 = auto_activity, c0 = ++create_starts;
     n_calls++;
+    if (busy_streams() > 0)
+        n_claims_while_busy++;
     if (kind != 2) {
         auto_inflight++;
         auto_activity++;
@@ -226,9 +275,14 @@ static int do_create(int id, int kind, int r, slot *s, ABT_pool *base_pool)
                 if (!held(k) && lastheld[k] < t0 && pend[k] == 0)
                     vs_fail("A%d: create without a rank got %d although rank %d was unused during the whole call", id, got, k);
         }
-        granted(id, kind == 2 ? "create_with_rank" : "create", got);
+        granted(id, kind == 2 ? "create_with_rank" : "create", got, s);
         s->rank = got;
         s->live = 1;
+        /* the descriptor is named by its address: the trace then shows the store of TERMINATED into its state word
+         * and its native thread parking on ctx.state_cond (the two halves of a completed join) */
+        vs_name(xptr(s->xs), sizeof(ABTI_xstream), "Q%p", xptr(s->xs));
+        if (kind != 3 && id != MAIN_ID && sc_rnd(100) < busypct)
+            make_busy(s);
     } else if (kind == 2 && rc == ABT_ERR_INV_XSTREAM_RANK) {
         if (r >= 0)
             refused(id, "create_with_rank", r, t0, seen, ai0, aa0);
@@ -251,9 +305,13 @@ static void do_setrank(int id, slot *s, int r)
         trans[q]++;
         pend[r]++;
     }
+    s->inset = 1;
     vs_log("rk call %d setrank %p %d", id, xptr(s->xs), r);
     rc = ABT_xstream_set_rank(s->xs, r);
     vs_note("rk ret %d setrank %s %d %p", id, rcs(rc), r, xptr(s->xs));
+    if (rc == ABT_SUCCESS && r >= 0)
+        s->rank = r;
+    s->inset = 0;
     if (r < 0) {
         VSA_CHECK(rc == ABT_ERR_INV_XSTREAM_RANK, "A%d: set_rank(%d) returned %d", id, r, rc);
         return;
@@ -267,7 +325,7 @@ static void do_setrank(int id, slot *s, int r)
         ABT_OK(ABT_xstream_get_rank(s->xs, &got));
         VSA_CHECK(got == r, "A%d: set_rank(%d) succeeded but the stream has rank %d", id, r, got);
         drop(&trans[q], q);
-        granted(id, "set_rank", r);
+        granted(id, "set_rank", r, s);
         s->rank = r;
     } else if (rc == ABT_ERR_INV_XSTREAM_RANK) {
         trans[q]--;
@@ -285,13 +343,19 @@ static void do_free(int id, slot *s)
     n_calls++;
     firm[q]--;
     trans[q]++;
+    if (s->busy)
+        n_free_while_busy++;
     vs_log("rk call %d free %p", id, xptr(s->xs));
     void *p = xptr(s->xs);
-    int rc = ABT_xstream_join(s->xs);
+    int rc = ABT_SUCCESS;
+    if (sc_rnd(2)) /* ABT_xstream_free joins by itself; half of the time the caller joins first */
+        rc = ABT_xstream_join(s->xs);
     if (rc == ABT_SUCCESS)
         rc = ABT_xstream_free(&s->xs);
     vs_note("rk ret %d free %s %d %p", id, rcs(rc), q, p);
     VSA_CHECK(rc == ABT_SUCCESS, "A%d: join/free of an own stream returned %d", id, rc);
+    VSA_CHECK(!s->busy, "A%d: ABT_xstream_free returned while a ULT of the stream (rank %d) has not finished", id, q);
+    vs_unname(p);
     drop(&trans[q], q);
     s->live = 0;
 }
@@ -317,6 +381,8 @@ static void do_getnum(int id)
     vs_note("rk ret %d getnum %s %d %p", id, rcs(rc), n, NULL);
     VSA_CHECK(rc == ABT_SUCCESS, "A%d: get_num returned %d", id, rc);
     VSA_CHECK(n == len, "A%d: get_num = %d but the stream list holds %d live streams", id, n, len);
+    int nb = busy_streams();
+    VSA_CHECK(n >= 1 + nb, "A%d: get_num = %d but the primary stream and %d streams that are still executing a ULT exist", id, n, nb);
 }
 
 static int pick_rank(void)
@@ -371,6 +437,7 @@ int main(int argc, char **argv)
     rounds = (int)vsa_param(2, 4);
     int extpct = (int)vsa_param(3, 50);
     nranks = (int)vsa_param(4, 3);
+    busypct = (int)vsa_param(5, 40);
     if (nbase > MAX_ES - 1)
         nbase = MAX_ES - 1;
     if (nact > MAX_ACTORS)
@@ -381,6 +448,9 @@ int main(int argc, char **argv)
     vsa_begin();
     vs_note("scenario ranks nbase=%d nact=%d rounds=%d ext%%=%d nranks=%d", nbase, nact, rounds, extpct, nranks);
     ABTI_global *g = gp_ABTI_global;
+    vs_note("O ABTI_xstream ctx.state_cond %zu %zu", offsetof(ABTI_xstream, ctx) + offsetof(ABTD_xstream_context, state_cond),
+            sizeof(pthread_cond_t));
+    vs_note("rk const terminated %d", (int)ABT_XSTREAM_STATE_TERMINATED);
     vs_name(&g->xstream_list_lock, sizeof(ABTD_spinlock), "RL");
     vs_set_snap_fn(&g->xstream_list_lock, list_snap);
     firm[0] = 1;
@@ -401,7 +471,6 @@ int main(int argc, char **argv)
         ABT_OK(ABT_pool_create_basic(ABT_POOL_FIFO, ABT_POOL_ACCESS_MPMC, ABT_TRUE, &sc_pool[i]));
         do_create(MAIN_ID, 3, -1, &base[i], &sc_pool[i]);
         sc_xs[i] = base[i].xs;
-        vsa_name_xstream(sc_xs[i], "X%d", i);
     }
     sc_nactors = nact;
     for (int i = 0; i < nact; i++) {
@@ -430,7 +499,8 @@ int main(int argc, char **argv)
         for (int r = 1; r < MAXR; r++)
             VSA_CHECK(firm[r] == 0 && trans[r] == 0 && pend[r] == 0, "monitor bookkeeping: rank %d still claimed at the end", r);
     }
-    vs_note("rk end calls=%ld granted=%ld refused=%ld same_rank_overlaps=%ld", n_calls, n_granted, n_refused, n_same_rank_overlap);
+    vs_note("rk end calls=%ld granted=%ld refused=%ld same_rank_overlaps=%ld busy=%ld free_while_busy=%ld claims_while_busy=%ld", n_calls,
+            n_granted, n_refused, n_same_rank_overlap, n_busy, n_free_while_busy, n_claims_while_busy);
     vs_unname(&g->xstream_list_lock);
     ABT_finalize();
     int rc = vsa_end();
